@@ -7,11 +7,11 @@ a crash is any prefix of the operation sequence followed by the loss, per file, 
 `crc` is a parameter (CRC-32C is not modelled); the only assumption on it, where one is needed, is stated explicitly.
 JSON and OS semantics beyond this crash model are not modelled (level: proof, partial).
 
-Two statements of the property are FALSE of the code as modelled (and of the real code, see corpus/C33):
-`pairing_all_histories` (segment/index k ↔ k pairing after a torn append) and `stateLog_all_histories` (a torn tail of
-groups.log / pids.log is ignored by replay but never truncated, later appends land behind it). For each the full
-statement is kept in a comment, the negation is proved with a `decide`d witness history and the part that holds is
-proved as `…_partial`. -/
+History: two statements of the property were false of the code when this check was built (segment/index k ↔ k
+pairing after a torn append; replay of groups.log / pids.log after an untruncated torn tail). Both were repaired in
+/repo (fc48882, a250036); the model follows the repaired code and the statements are now proved at full strength
+(`pairing_all_histories`, `stateLog_all_histories`). One statement is still false (`crash_abort_not_durable`,
+known finding `crash-aborted-txn-has-no-marker`). -/
 namespace Props.C33
 open Model.C33 Proof.C33
 
@@ -120,30 +120,46 @@ theorem stateLog_clean_close (crc : Bytes → Nat) (hc : CrcRange crc) (es : Lis
   rw [h3]
   exact List.take_of_length_le (by omega)
 
-/-- STATE LOGS, ALL HISTORIES (false):
-  `∀ crc es₁ n es₂, readEntries crc (frames crc es₁ ++ (frame crc e).take n ++ frames crc es₂)).1 = es₁ ++ es₂`
-i.e. after a crash that left a torn tail, restart and further acknowledged appends, a second restart recovers them.
-`loadGroupsLog` / `loadPIDsLog` ignore the torn tail but do not truncate it and the log is reopened with O_APPEND, so the
-later entries sit behind bytes at which replay stops. What holds (`_partial`): everything before the torn tail. -/
-theorem stateLog_all_histories_partial (crc : Bytes → Nat) (hc : CrcRange crc) (es : List Entry) (hes : ∀ e ∈ es, Entry.WF e)
-    (junk later : Bytes) (hj : (readEntries crc (junk ++ later)).1 = []) :
-    (readEntries crc (frames crc es ++ (junk ++ later))).1 = es :=
-  (readEntries_arbitrary_junk crc hc es hes (junk ++ later)).2 hj
+/-- STATE LOGS, ALL HISTORIES. Any number of generations; each one starts by cutting the log at its last valid entry
+(`loadGroupsLog` / `loadPIDsLog` after fix a250036), appends entries (write, sync each; an entry can only have been
+acknowledged after its sync), and stops after ANY number `k` of file operations with ANY `n` bytes of the unsynced
+tail surviving. The final replay returns, generation by generation and in order, a prefix `es.take m` of that
+generation's entries with `k/2 ≤ m ≤ k/2 + 1`: every synced entry of every generation, at most the in-flight one
+more, nothing partial and nothing out of order. -/
+theorem stateLog_all_histories (crc : Bytes → Nat) (hc : CrcRange crc) (gs : List LogGen) (hgs : ∀ g ∈ gs, LogGenWF g) :
+    ∃ ms, LogBounds gs ms ∧ (readEntries crc (runLog crc gs)).1 = pickLog gs ms := by
+  obtain ⟨ms, hb, t', ht', hr⟩ := runLog_spec crc hc gs hgs [] [] (by simp) (Or.inl rfl)
+  refine ⟨ms, hb, ?_⟩
+  have h0 : frames crc ([] : List Entry) ++ [] = [] := by simp [frames]
+  rw [h0] at hr
+  have hwf : ∀ e ∈ pickLog gs ms, Entry.WF e := by
+    have : ∀ (gs : List LogGen) (ms : List Nat), (∀ g ∈ gs, LogGenWF g) → ∀ e ∈ pickLog gs ms, Entry.WF e := by
+      intro gs
+      induction gs with
+      | nil => intro ms _ e he; simp [pickLog] at he
+      | cons g gs ih =>
+        intro ms h e he
+        cases ms with
+        | nil => simp [pickLog] at he
+        | cons m ms =>
+          simp only [pickLog, List.mem_append] at he
+          rcases he with he | he
+          · exact h g (by simp) e (List.mem_of_mem_take he)
+          · exact ih ms (fun x hx => h x (by simp [hx])) e he
+    exact this gs ms hgs
+  unfold runLog
+  rw [hr, List.nil_append, readEntries_frames_append crc hc _ hwf, tornOK_read crc t' ht']
+  simp
 
-/-- a checksum that is good enough to show the effect and small enough for the kernel: sum of the bytes -/
+example : ∃ gs : List LogGen, (∀ g ∈ gs, LogGenWF g) ∧ gs.length = 3 ∧ ∀ g ∈ gs, g.k % 2 = 1 ∧ g.k / 2 < g.es.length :=
+  ⟨[⟨[⟨1, [1]⟩, ⟨1, [2]⟩], 3, 5⟩, ⟨[⟨1, [3]⟩], 1, 11⟩, ⟨[⟨1, [4]⟩, ⟨1, [5]⟩], 1, 0⟩], by decide, by decide, by decide⟩
+
+/-- The history that lost an acknowledged entry before the repair (an 11-byte torn frame, restart, one entry written and
+synced, restart): the entry is recovered. (`sumCrc`: a checksum small enough for the kernel.) -/
 def sumCrc (bs : Bytes) : Nat := (bs.foldl (fun a b => a + b.toNat) 0) % 4294967296
 
-/-- Negation of the full statement, by a concrete history: entry `e₁` is written and synced (acknowledged) after a
-restart on a log whose tail is an 11-byte torn frame; the next replay returns nothing. -/
-theorem stateLog_all_histories_fails :
-    ¬ ∀ (crc : Bytes → Nat) (es₁ : List Entry) (e : Entry) (n : Nat) (es₂ : List Entry), CrcRange crc →
-        n < (frame crc e).length →
-        (readEntries crc (frames crc es₁ ++ (frame crc e).take n ++ frames crc es₂)).1 = es₁ ++ es₂ := by
-  intro h
-  have hr : CrcRange sumCrc := fun bs => Nat.mod_lt _ (by decide)
-  have := h sumCrc [] ⟨1, [170, 187]⟩ 11 [⟨1, [1]⟩] hr (by decide)
-  revert this
-  decide
+theorem stateLog_regression :
+    (readEntries sumCrc (runLog sumCrc [⟨[⟨1, [170, 187]⟩], 1, 11⟩, ⟨[⟨1, [1]⟩], 2, 0⟩])).1 = [⟨1, [1]⟩] := by decide
 
 /-! ## Snapshots: temp file + sync + rename -/
 
@@ -168,16 +184,18 @@ theorem segment_crash_content (encs : List Bytes) (k n : Nat) :
   have := crash_appendHist encs [] k n
   simpa using this
 
-/-- Segment replay at byte level (`loadSegmentBatches`): complete valid batches followed by a torn batch — any proper
-prefix of a valid batch, no CRC assumption — replay to exactly the complete batches; and batch k is given index entry k
-of the index file as it is (`pairIdx`), whatever that file holds. -/
+/-- Segment replay at byte level (`loadSegmentBatches` after fix fc48882, index file present): complete valid batches
+followed by a torn batch — any proper prefix of a valid batch, no CRC assumption — replay to the complete batches that
+have a complete index entry (`idx.length / 15` of them), batch k carrying index entry k; a batch without an entry and
+everything behind it is dropped. -/
 theorem segment_torn_tail (crc : Bytes → Nat) (idx : Bytes) (raws : List Bytes) (bs : List Batch) (h : AllOK crc raws bs)
     (raw0 : Bytes) (b0 : Batch) (h0 : BatchOK crc raw0 b0) (n : Nat) (hn : n < raw0.length) :
-    loadSegment crc (raws.flatten ++ raw0.take n) idx = pairIdx crc idx 0 bs := by
+    loadSegment crc (raws.flatten ++ raw0.take n) (some idx) = pairIdx crc idx 0 (bs.take (idx.length / 15)) := by
   unfold loadSegment
-  exact seg_load crc idx raws bs h raw0 b0 h0 n hn _ 0 (by
+  have := seg_load crc idx raws bs h raw0 b0 h0 n hn (raws.flatten ++ raw0.take n).length 0 (by
     have := flatten_length_ge crc raws bs h
     simp only [List.length_append]; omega)
+  simpa using this
 
 example : ∃ raw b, BatchOK (fun _ => 0) raw b :=
   have h : (decodeBatch (fun _ => 0) (List.replicate 11 0 ++ [49] ++ List.replicate 49 0)).isSome := by decide
@@ -199,36 +217,29 @@ theorem contiguous_prefix (bs : List (Nat × Nat)) : ∀ (s j : Nat), Contig s b
     | zero => simp [Contig]
     | succ j => obtain ⟨f, c⟩ := x; exact ⟨h.1, ih _ j h.2⟩
 
-/-- PAIRING, ALL HISTORIES (false):
-  `∀ gs, ∀ bm ∈ ackedOf gs, (bm.1, some bm.2) ∈ (SegIdx.runGens ⟨[], []⟩ gs).paired`
-i.e. over any multi-generation history (appends, a crash inside an append, restart, more appends, …) every
-acknowledged batch is replayed with the index metadata (epoch, maxEarlierTimestamp, inTx) it was appended with.
-What holds (`_partial`): histories in which no torn append leaves the segment record without its index record. -/
-theorem pairing_all_histories_partial {β μ} (gs : List (Generation β μ)) (h : ∀ g ∈ gs, g.noSegOnly) :
-    ∀ bm ∈ ackedOf gs, (bm.1, some bm.2) ∈ (SegIdx.runGens ⟨[], []⟩ gs).paired := by
+/-- PAIRING, ALL HISTORIES. Over any multi-generation history — complete appends, a crash inside an append that keeps
+none, both, only the segment record or only the index record, restart (`loadSegmentBatches` after fix fc48882: surplus
+index entries and entry-less batches are both cut), more appends, … — every acknowledged batch is replayed with the
+index metadata (epoch, maxEarlierTimestamp, inTx) it was appended with, and every replayed batch has an index entry. -/
+theorem pairing_all_histories {β μ} (gs : List (Generation β μ)) :
+    (∀ bm ∈ ackedOf gs, (bm.1, some bm.2) ∈ (SegIdx.runGens ⟨[], []⟩ gs).paired) ∧
+    (∀ p ∈ (SegIdx.runGens ⟨[], []⟩ gs).paired, p.2.isSome = true) := by
   have h0 : Aligned (⟨[], []⟩ : SegIdx β μ) [] := ⟨rfl, fun _ h => by simp at h⟩
-  have := aligned_runGens gs _ _ h0 h
+  have := aligned_runGens gs _ _ h0
+  refine ⟨?_, pairFrom_all_some _ _ this.1⟩
   intro bm hbm
   obtain ⟨b, m⟩ := bm
   exact mem_pairFrom_of_mem_zip _ _ b m (this.2 (b, m) (by simpa using hbm))
 
-example : ∃ gs : List (Generation Nat Nat), (∀ g ∈ gs, g.noSegOnly) ∧ (ackedOf gs).length = 2 :=
-  ⟨[⟨[(0, 100)], some (1, 101, .idxOnly)⟩, ⟨[(2, 102)], none⟩], by decide, by decide⟩
+example : ∃ gs : List (Generation Nat Nat), (ackedOf gs).length = 2 ∧ gs.any (fun g => g.inflight.isSome) :=
+  ⟨[⟨[(0, 100)], some (1, 101, .segOnly)⟩, ⟨[(2, 102)], none⟩], by decide, by decide⟩
 
-/-- Negation of the full statement (key `index-segment-skew-after-torn-append`): generation 1 crashes inside the append
-of batch 0 after the segment write, before the index write; generation 2 appends and acknowledges batch 1 with metadata
-101. Replay pairs batch 0 with 101 and batch 1 with nothing. -/
-theorem pairing_all_histories_fails :
-    ¬ ∀ gs : List (Generation Nat Nat), ∀ bm ∈ ackedOf gs, (bm.1, some bm.2) ∈ (SegIdx.runGens ⟨[], []⟩ gs).paired := by
-  intro h
-  have := h [⟨[], some (0, 100, .segOnly)⟩, ⟨[(1, 101)], none⟩]
-  revert this
-  decide
-
-/-- what the witness history replays to -/
-theorem pairing_witness_replay :
+/-- The history that skewed the pairing before the repair (generation 1 crashes after the segment write of batch 0,
+before its index write; generation 2 appends and acknowledges batch 1 with metadata 101): batch 0 is dropped and batch 1
+replays with its own entry. -/
+theorem pairing_regression :
     (SegIdx.runGens (⟨[], []⟩ : SegIdx Nat Nat) [⟨[], some (0, 100, .segOnly)⟩, ⟨[(1, 101)], none⟩]).paired
-      = [(0, some 101), (1, none)] := by decide
+      = [(1, some 101)] := by decide
 
 /-! ## Transactions open at a crash -/
 
